@@ -71,6 +71,10 @@ pub enum BlockMut {
     /// well-formed expressions over the ends of every value domain, as literals and as values
     /// bound from facts: every operator must answer or fail cleanly
     EvalEdge { seed: u64 },
+    /// a check without any query
+    CheckNoQueries,
+    /// a check query whose head names a variable the body does not bind, with a matching fact
+    CheckHeadUnbound,
 }
 
 #[derive(Clone, Debug, PartialEq, Eq, Serialize, Deserialize)]
@@ -90,6 +94,10 @@ pub enum SnapMut {
     AuthorizerBlock(BlockMut),
     TokenBlock(BlockMut),
     ExternalKeyBad,
+    /// a policy of a valid kind without any query
+    PolicyNoQueries,
+    /// a policy whose query head names an unbound variable, with a matching authorizer fact
+    PolicyHeadUnbound,
 }
 
 #[derive(Clone, Debug, PartialEq, Eq, Serialize, Deserialize)]
@@ -226,6 +234,8 @@ fn gen_blockmut(rng: &mut Rng) -> BlockMut {
         EvalEdge { seed: 2 },
         EvalEdge { seed: 3 },
         EvalEdge { seed: 4 },
+        CheckNoQueries,
+        CheckHeadUnbound,
     ];
     let mut m = rng.pick(&all).clone();
     if let Garbage { seed } | EvalEdge { seed } = &mut m {
@@ -309,6 +319,11 @@ fn nested_closure(depth: usize) -> Vec<schema::Op> {
         ];
     }
     ops
+}
+
+/// `q($9) <- resource($8)`: the head variable is not bound by the body
+fn head_unbound_query() -> schema::RuleV2 {
+    schema::RuleV2 { head: pred(27, vec![term_var(9)]), body: vec![pred(2, vec![term_var(8)])], expressions: vec![], scope: vec![] }
 }
 
 fn edge_terms() -> Vec<schema::TermV2> {
@@ -510,6 +525,11 @@ pub fn mutate_block(b: &mut schema::Block, m: &BlockMut, previous_symbols: &[Str
                     _ => b.checks_v2.push(check_with_ops(vec![op_value(a), op_value(c), op_bin(kind)])),
                 }
             }
+        }
+        CheckNoQueries => b.checks_v2.push(schema::CheckV2 { queries: vec![], kind: None }),
+        CheckHeadUnbound => {
+            b.facts_v2.push(fact(pred(2, vec![term_int(1)])));
+            b.checks_v2.push(schema::CheckV2 { queries: vec![head_unbound_query()], kind: None });
         }
         Empty => {
             *b = schema::Block {
@@ -1019,6 +1039,19 @@ impl C09Engine {
                             b.external_key = Some(schema::PublicKey { algorithm: 1, key: vec![3; 33] });
                         }
                     }
+                    SnapMut::PolicyNoQueries => {
+                        snap.world.authorizer_policies.insert(0, schema::Policy { queries: vec![], kind: 0 });
+                        snap.world.authorizer_policies.push(schema::Policy { queries: vec![], kind: 1 });
+                    }
+                    SnapMut::PolicyHeadUnbound => {
+                        snap.world.authorizer_block.facts_v2.push(fact(pred(2, vec![term_int(1)])));
+                        snap.world.authorizer_policies.insert(0, schema::Policy { queries: vec![head_unbound_query()], kind: 0 });
+                        // the snapshot may be of an evaluated authorizer: the fact is known there too
+                        snap.world.generated_facts.push(schema::GeneratedFacts {
+                            origins: vec![schema::Origin { content: Some(schema::origin::Content::Authorizer(schema::Empty {})) }],
+                            facts: vec![fact(pred(2, vec![term_int(1)]))],
+                        });
+                    }
                 }
                 let mut bytes = Vec::new();
                 let _ = snap.encode(&mut bytes);
@@ -1036,6 +1069,42 @@ impl C09Engine {
                 let bytes = apply_bytes(m, &base);
                 if let Some(Ok(mut a)) = cx.guard("Authorizer::from(policies)", || Authorizer::from(&bytes)) {
                     sweep_authorizer(cx, &mut a, 0);
+                }
+                // structured: the same adversarial items as in blocks, inside a policies message
+                if let Ok(mut p) = schema::AuthorizerPolicies::decode(&base[..]) {
+                    let seed = match m {
+                        ByteMut::Flip { o, bit } => o * 8 + bit,
+                        ByteMut::Trunc { n } | ByteMut::Ext { n } => *n,
+                        ByteMut::Zero { o, len } => o + len,
+                        ByteMut::Insert { o, n, .. } => o + n,
+                        ByteMut::Dup => 1,
+                        ByteMut::Empty => 2,
+                    };
+                    let mut rng = Rng::derive(seed as u64, "policies-structured", 0);
+                    match rng.below(4) {
+                        0 => p.policies.insert(0, schema::Policy { queries: vec![], kind: 0 }),
+                        1 => {
+                            p.facts.push(fact(pred(2, vec![term_int(1)])));
+                            p.policies.insert(0, schema::Policy { queries: vec![head_unbound_query()], kind: 0 });
+                        }
+                        _ => {
+                            let mut b = schema::Block::default();
+                            let bm = gen_blockmut(&mut rng);
+                            if mutate_block(&mut b, &bm, &[]).is_none() {
+                                p.version = b.version;
+                                p.facts.extend(b.facts_v2);
+                                p.rules.extend(b.rules_v2);
+                                p.checks.extend(b.checks_v2);
+                            }
+                        }
+                    }
+                    let mut bytes = Vec::new();
+                    let _ = p.encode(&mut bytes);
+                    cx.stats.bump("fault.policies_structured");
+                    if let Some(Ok(mut a)) = cx.guard("Authorizer::from(policies)", || Authorizer::from(&bytes)) {
+                        cx.stats.bump("c09.policies_accepted");
+                        sweep_authorizer(cx, &mut a, 0);
+                    }
                 }
             }
             Attack::KeyMaterial { form, alg, m } => {
@@ -1154,7 +1223,7 @@ impl C09Engine {
 }
 
 fn gen_snapmut(rng: &mut Rng) -> SnapMut {
-    match rng.below(15) {
+    match rng.below(17) {
         0 => SnapMut::DropSymbols,
         1 => SnapMut::DropKeys,
         2 => SnapMut::VersionNone,
@@ -1169,7 +1238,9 @@ fn gen_snapmut(rng: &mut Rng) -> SnapMut {
         11 => SnapMut::BlockFactOob,
         12 => SnapMut::AuthorizerBlock(gen_blockmut(rng)),
         13 => SnapMut::TokenBlock(gen_blockmut(rng)),
-        _ => SnapMut::ExternalKeyBad,
+        14 => SnapMut::ExternalKeyBad,
+        15 => SnapMut::PolicyNoQueries,
+        _ => SnapMut::PolicyHeadUnbound,
     }
 }
 
